@@ -227,7 +227,7 @@ func genWorld(seed uint64, tier string, mode string) *Script {
 		}
 	}
 	serial := 0
-	asPool := []uint32{65001, 65002, 65003, 65004, 65010, 65020, 64512, 65000, 100, 200, 3000}
+	asPool := []uint32{65001, 65002, 65003, 65004, 65010, 65020, 64512, 65000, 100, 200, 3000, 70001, 4200000100}
 	mkAttrs := func(c *PeerCfg) *AttrSpec {
 		if o.Select {
 			// tiny domains so that candidates tie on the early steps
@@ -491,7 +491,21 @@ func genWorld(seed uint64, tier string, mode string) *Script {
 					// identical attribute sets: exercises NLRI grouping and the per-message NLRI budget
 					a := mkAttrs(c)
 					a.PadComms = pick(g, []int{0, 0, 100, 500, 900})
-					p.Ops = append(p.Ops, Op{Kind: "gburst", Actor: c.Idx, Count: pick(g, []int{2, 7, 50, 300, 810, 814, 816, 820, 1000, 2100}), N: g.n(200), Attrs: a, Tag: mkTag(c.Idx, serial), Arg: pick(g, []string{"", "", "nh"})})
+					p.Ops = append(p.Ops, Op{Kind: "gburst", Actor: c.Idx, Count: pick(g, []int{2, 7, 50, 300, 810, 814, 816, 820, 1000, 2100}), N: g.n(200), Attrs: a, Tag: mkTag(c.Idx, serial), Arg: pick(g, []string{"", "", "nh"}), Prefix: pick(g, []string{"", "", "host"})})
+				}
+				if g.p(40) {
+					// the whole table goes out again as ONE batch: full-size messages, for a
+					// 2-octet-AS neighbour converted (AS_TRANS + AS4_PATH) after they were packed
+					t := g.n(np)
+					for k := 0; k < np; k++ {
+						if sc.Peers[(t+k)%np].NoAS4 && g.p(70) {
+							t = (t + k) % np
+							break
+						}
+					}
+					if !down[t] && t != c.Idx {
+						p.Ops = append(p.Ops, Op{Kind: "softout", Actor: c.Idx, Peer: t, Delay: 1500})
+					}
 				}
 			}
 		}
@@ -680,6 +694,10 @@ func worldOp(w *simWorld, actor int, op *Op) {
 				spec = &c
 			}
 			pfx := fmt.Sprintf("172.%d.%d.0/24", 16+((op.N+i)>>8)&0x0f, (op.N+i)&0xff)
+			if op.Prefix == "host" {
+				// 5-octet NLRI: the packer's worst case, messages are filled to the last octet
+				pfx = fmt.Sprintf("172.%d.%d.1/32", 16+((op.N+i)>>8)&0x0f, (op.N+i)&0xff)
+			}
 			r := &annRoute{Tag: op.Tag, Fam: famV4, Prefix: pfx, PathID: op.PathID, Spec: spec, Src: actor}
 			w.mu.Lock()
 			w.tagsPfx[fmt.Sprintf("%x/%s", op.Tag, pfx)] = r
